@@ -76,7 +76,48 @@ def _tag_worker(task):
     return _TAG[int(task[1])]
 
 
+def have_run_worker():
+    import thejoker.multiproc_helpers as mh
+    return hasattr(mh, "run_worker")
+
+
+def call_via_api(case):
+    """the same observation without reaching into multiproc_helpers: the tasks a recording pool receives from
+    TheJoker.marginal_ln_likelihood / rejection_sample on a library file (used when run_worker is not there to be called)"""
+    import thejoker as tj
+    from .. import fixture
+    prior = fixture.make_prior("default")
+    data = fixture.make_data()
+    n_total = case["n_total"]
+    lib = fixture.Library(n_total, seed=n_total)
+    path = case["file"] + ".api.hdf5"
+    if not os.path.exists(path):
+        lib.write(path)
+    pool = RecPool(case["pool_size"], case["id_seed"])
+    joker = tj.TheJoker(prior, pool=pool, rng=np.random.default_rng(case["id_seed"]))
+    kw = {}
+    if case["n_batches"] is not None:
+        kw["n_batches"] = case["n_batches"]
+    ref = np.asarray(tj.TheJoker(prior).marginal_ln_likelihood(data, lib.samples, in_memory=True))
+    if case["sel"] == "n_prior":
+        n = case["n_prior"]
+        res = joker.rejection_sample(data, path, n_prior_samples=n, return_all_logprobs=True, **kw)
+        ll = np.asarray(res[1])
+    else:
+        n = n_total
+        ll = np.asarray(joker.marginal_ln_likelihood(data, path, **kw))
+    tasks = pool.calls[0]
+    ok = len(ll) == n and np.allclose(ll, ref[:n], rtol=1e-9, atol=1e-9)
+    k = len(tasks)
+    tr = {"id": case["id"], "kind": "run", "arrkind": "idx", "n": int(n), "s": 0, "arr": [],
+          "results": list(range(1, k + 1)) if ok else list(range(k, 0, -1)) + [0]}
+    tr["tasks"] = _norm_tasks_idx(tasks)
+    return tr
+
+
 def call_run_worker(case):
+    if not have_run_worker():
+        return call_via_api(case)
     from thejoker.multiproc_helpers import run_worker
     path = case["file"]
     pool = RecPool(case["pool_size"], case["id_seed"])
@@ -194,6 +235,8 @@ def run(ctx, selftest=False):
         if sel == "idx":
             m = rnd.randint(1, n_total)
             c["idx"] = rnd.sample(range(n_total), m)
+            if not have_run_worker():
+                c["sel"] = "all"          # index arrays are chosen by the library itself on the public paths
         t = call_run_worker(c)
         ctx.count()
         if t["n"] > 1:
